@@ -1,6 +1,7 @@
 package main
 
 import (
+	"sync"
 	"encoding/json"
 	"flag"
 	"fmt"
@@ -574,6 +575,9 @@ func truncate(s string, n int) string {
 	return s
 }
 
+// "pkg.Key" of every contract whose requires some call site in the verified set checked
+var preCheckedOf = &sync.Map{}
+
 func writeEvidence(verifDir string, cfg *PropConfig, tier string, seed int, reports []*FuncReport, obs []obReport, nProof, nDis, nVac, nVacOK int,
 	known, violations, toolErrs []string, wall, solver float64, backends map[string]int, to int, bounded []map[string]any) {
 	var funcs []map[string]any
@@ -594,6 +598,15 @@ func writeEvidence(verifDir string, cfg *PropConfig, tier string, seed int, repo
 	}
 	for _, x := range cfg.Trusted {
 		trusted[x] = true
+	}
+	// requires clauses that no call site in the verified set checks: assumptions about callers outside it
+	for _, r := range reports {
+		if _, ok := preCheckedOf.Load(r.Func); r.Key == "" || ok {
+			continue
+		}
+		for _, rq := range r.Requires {
+			assume["entry precondition of "+r.Func+" (no call site in the verified set checks it): "+truncate(rq, 300)] = true
+		}
 	}
 	tb := keysOf(trusted)
 	tb = append(tb, "govc (front end, symbolic executor, heap/map/sequence encoding)", "z3 4.8.12 / z3-new 5.1.0 / cvc5 1.0 (portfolio, first definite answer)", "go/parser, go/types, x/tools go/packages v0.29.0")
